@@ -79,6 +79,7 @@ int engine_c15(RBuf &rq)
       uint32_t usec = rq.u32();
       uint32_t sig_k = rq.u32();
       uint32_t hist_steps = rq.u32();
+      uint32_t hist_sigint = rq.u32();
       std::string hist = rq.str();
       if (index < 0 || cpu_list[index].simulate_init == NULL) { printf("@@NOSIM\n"); continue; }
 
@@ -104,6 +105,25 @@ int engine_c15(RBuf &rq)
         sim->set_pc(0);
         sim->enable_step_mode();
         for (uint32_t i = 0; i < hist_steps; i++) { sim->run(-1, 1); }
+        if (hist_sigint != 0)
+        {
+          // ... and ends with a free run that is interrupted by Ctrl-C at its k-th usleep
+          sim->disable_step_mode();
+          sim->set_delay(1);
+          SigPlan s;
+          s.trigger = 0;
+          s.k = W.hdr->usleeps + hist_sigint;
+          s.after = 0;
+          s.repeat = 0;
+          s.done = false;
+          W.sigs.clear();
+          W.sigs.push_back(s);
+          sim->enable_signal_handler();
+          sim->run(-1, 0);
+          printf("@@HISTRUN delivered=%d\n", W.sigs[0].done ? 1 : 0);
+          W.sigs.clear();
+          sim->set_delay(1000000);
+        }
         memory->clear();
         for (size_t w = 0; w < wins.size(); w++)
           for (size_t i = 0; i < wins[w].data.size(); i++)
